@@ -43,6 +43,7 @@ class Spec:
     trusted: list = field(default_factory=list)
     note: str = ""
     extra: object = None  # callable(ctx) -> None for property specific checks
+    fresh_counter: bool = False  # compile every program with hybrid_op_count = 0 (needed to compare layouts)
 
 
 def regenerate(broken):
@@ -92,7 +93,7 @@ def run(spec: Spec, tier: str) -> int:
         allp = progs + witness_progs
         jobs = []
         for fmt in spec.formats:
-            jobs += [{"id": f"{fmt}:{i}", "code": c, "fmt": fmt} for i, c in enumerate(allp)]
+            jobs += [{"id": f"{fmt}:{i}", "code": c, "fmt": fmt, "fresh_counter": spec.fresh_counter} for i, c in enumerate(allp)]
         t1 = time.time()
         stats = {"programs": len(progs), "formats": list(spec.formats)}
         violations = []
@@ -143,7 +144,10 @@ def run(spec: Spec, tier: str) -> int:
                 except iltext.ILParseError as e:
                     malformed[jid] = str(e)
         try:
-            probes = diffrun.probe(spec.prop, cases, diffrun.seeds_for(tier, common.seed()))
+            if set(spec.oracles) <= {"wf", "linear"}:
+                probes = diffrun.probe_light(spec.prop, cases)
+            else:
+                probes = diffrun.probe(spec.prop, cases, diffrun.seeds_for(tier, common.seed()))
         except Exception as e:
             broken.append(Broken("correspondence", "oracle evaluation (sem/Diff.v on real bodies)", str(e)[-1500:]))
         stats["oracle_s"] = round(time.time() - t2, 1)
@@ -175,6 +179,43 @@ def run(spec: Spec, tier: str) -> int:
         code = allp[int(jid.split(":")[1])]
         if "wf" in spec.oracles and code not in known_codes:
             fails.append((jid, code, ["malformed-text: " + msg], {"flags": 0}))
+    # invalid C identifiers in an otherwise readable body
+    if "wf" in spec.oracles:
+        for jid, b in k2r.bodies.items():
+            if getattr(b, "invalid_names", None) and allp[int(jid.split(":")[1])] not in known_codes:
+                fails.append((jid, allp[int(jid.split(":")[1])], ["malformed-text: invalid C identifiers " + ", ".join(b.invalid_names)], {"flags": 0}))
+    # symptom classes: a wf / linear failure whose symptoms are all listed (known_findings 'symptom') is a known finding
+    known_sym = {k["symptom"]: k for k in known if "symptom" in k}
+    if known_sym and fails:
+        items = [(jid, k2r.bodies[jid]) for jid, _, of, _ in fails if jid in k2r.bodies and any(o in ("wf", "linear") for o in of)]
+        offs = {}
+        try:
+            offs = diffrun.offenders(spec.prop, list(dict(items).items()))
+        except Exception as e:
+            broken.append(Broken("correspondence", "symptom classification", str(e)[-800:]))
+        keep, seen_sym = [], {}
+        for jid, code, of, v in fails:
+            classes = set()
+            if jid in offs:
+                oc = diffrun.symptom_classes(offs[jid])
+                classes |= {c for c in oc if c.split(":")[0] in of}
+            for o in of:
+                if o.startswith("malformed-text"):
+                    classes.add("malformed:" + ("invalid-identifier" if "invalid C identifiers" in o else "float-literal" if ".0" in o or "bad token" in o else "other"))
+                elif o not in ("wf", "linear"):
+                    classes.add("other:" + o)
+            if classes and all(c in known_sym for c in classes):
+                for c in classes:
+                    seen_sym.setdefault(c, code)
+            else:
+                v = dict(v)
+                v["symptoms"] = sorted(classes)
+                keep.append((jid, code, of, v))
+        fails[:] = keep
+        for c, code in seen_sym.items():
+            kf = known_sym[c]
+            res.known(f"{kf['id']}: {kf['what']} -- symptom {c}, e.g. {kf['witness'].get('code', code)}")
+        stats["known_symptom_classes_seen"] = sorted(seen_sym)
     # known findings: still failing?
     for code, kf in known_codes.items():
         still = False
@@ -189,6 +230,11 @@ def run(spec: Spec, tier: str) -> int:
                 still |= not r.get("ok", False)
             elif kind == "malformed-text":
                 still |= jid in malformed
+            elif kind == "invalid-identifier":
+                still |= bool(getattr(k2r.bodies.get(jid), "invalid_names", None))
+            elif kind == "layout-accept":
+                oks = {bool(k2r.results.get(f"{f2}:{allp.index(code)}", {}).get("ok")) for f2 in spec.formats}
+                still |= len(oks) > 1
             elif v is None:
                 still |= bool(r.get("ok")) and kind in ("wf", "denote")
             else:
